@@ -28,7 +28,7 @@ MIN_NONVACUOUS = {'quick': {'slp.scenario_vectors_feasible': 300, 'slp.value_dec
 def gen_case(rng):
     g = gen.gen_grid(rng, freqs=['h', 'h', '2h', '4h', 'd'], steps=(6, 20))
     spec = gen.gen_lp_portfolio(rng, g=g, types=('contract', 'transport', 'storage', 'storage', 'multi'), n_assets=(1, 4), n_nodes=(1, 3))
-    if rng.random() < 0.3:
+    if rng.random() < 0.4:
         # a scaled asset (cost vector path of ScaledAsset), possibly with a window of its own that differs from its base asset's
         f = gen.UNIT_F[g['unit']]
         b = gen.gen_storage(rng, g, 'sc_base', [spec['assets'][0]['nodes'][0]], f, window=False)
@@ -36,6 +36,15 @@ def gen_case(rng):
         ws, we, _k = gen.gen_window(rng, g, kinds=['none', 'inside', 'inside', 'straddle_end', 'start_only'])
         spec['assets'].append({'type': 'ScaledAsset', 'name': 'sc', 'base': b, 'min_scale': 0., 'max_scale': 2., 'norm_scale': 1., 'fix_costs': gen.r2(gen.pick(rng, [0.05, 0.5]) * f), 'wacc': 0.,
                                'start': ws, 'end': we})
+    f = gen.UNIT_F[g['unit']]
+    if rng.random() < 0.3:
+        # variables with several mapping rows at different steps: orders delivering across the stage boundary
+        spec['assets'].append(gen.gen_orderbook(rng, g, 'ob', spec['assets'][0]['nodes'][0]))
+    if rng.random() < 0.25 and g['freq'] in gen.COARSE_OF:
+        # ... and an asset with its own coarser frequency (the boundary is in general not aligned with its intervals)
+        a = gen.gen_contract(rng, g, 'co', spec['assets'][0]['nodes'][0], f, sorted(spec['prices'])[0], window=False, take=False, dict_caps=False)
+        a['freq'] = gen.pick(rng, gen.COARSE_OF[g['freq']]); a['wacc'] = 0.
+        spec['assets'].append(a)
     spec = gen.strip_private(spec)
     T = len(gen.grid_points(g))
     k = int(gen.pick(rng, [0] + list(range(1, T)) * 3))
@@ -90,9 +99,22 @@ def run_case(rng, tier, case):
             mp = op0.mapping
             first = mp[~mp.index.duplicated(keep='first')]
             if len(first) != m:
-                case.inconc('variables without mapping row'); return
+                case.feature('variables_without_mapping_row')       # (orders without a step in the horizon: inert, neither present nor future)
+            # a variable belongs to the future stage only if ALL its mapping rows lie in the future (a decision acting in the present is a
+            # present-stage decision): earliest step of the variable >= boundary
+            tmin = mp.groupby(level=0)['time_step'].min(); tmax = mp.groupby(level=0)['time_step'].max()
+            # premise 'scenarios share the present prices': the cost of a coarse variable averages the prices of all its fine steps, so a coarse
+            # variable must not straddle the boundary - the boundary is moved back to the start of that coarse interval (orders have fixed prices
+            # and may straddle)
+            co_idx = [int(i) for i in mp[mp['asset'] == 'co'].index.unique()]
+            while True:
+                strad = [i for i in co_idx if tmin[i] < k <= tmax[i]]
+                if not strad:
+                    break
+                k = int(min(tmin[i] for i in strad))
+            case.sample['boundary_step'] = k; case.spec['boundary'] = k
             fut = np.zeros(m, bool)
-            fut[np.asarray(first.index, int)] = first['time_step'].values >= k
+            fut[np.asarray(tmin.index, int)] = tmin.values >= k
             samples = [{kk: np.asarray(v, float) for kk, v in p.items()} for p in scen]
             start_future = pts[k]
             op_slp = SLP.make_slp(op0, P, tg, start_future.to_pydatetime() if rng.random() < 0.5 else start_future, samples)
@@ -111,6 +133,7 @@ def run_case(rng, tier, case):
     tol = solve.TOL_VAL * (1 + np.abs(Vs).max())
     nf = int(fut.sum())
     differ = not identical and k < T
+    lay = False
     if isinstance(res_slp, str):
         case.inconc('SLP not solved: ' + res_slp)
     else:
@@ -151,6 +174,36 @@ def run_case(rng, tier, case):
                     case.event('fixed_present_infeasible_within_tolerance'); continue
                 eev = float(np.mean(vals))
                 case.check('slp.not_below_fixed_present', V >= eev - tol, nonvacuous=differ and nf > 0 and nf < m, slp=V, expected_value_fixed_present=eev, fixed_to_scenario=int(kk), boundary=k)
+    if not isinstance(res_slp, str) and 0 < k < T and lay and tier is not None:
+        # the same lower bound with every quantity from real executions: the present fixed through EAO's own fix_time_window
+        # (window = all steps before the boundary) to the solution of one scenario, all scenarios re-optimised by EAO
+      for kk in [int(q) for q in rng.permutation(S + 1)[:2]]:
+        xk = np.asarray(det[kk][1].x, float)
+        vals = []; kept = True; worst_dev = 0.
+        try:
+            with attach.paused(), env.quiet():
+                for j in range(S + 1):
+                    prj = {q: np.asarray(v, float) for q, v in allp[j].items()}
+                    opj = P.setup_optim_problem(prj, tg, fix_time_window={'I': np.arange(T) < k, 'x': xk.copy()})
+                    rj = opj.optimize()
+                    if isinstance(rj, str):
+                        vals = None; break
+                    vals.append(float(rj.value))
+                    pres = ~fut; pres[np.setdiff1d(np.arange(m), np.asarray(tmin.index, int))] = False       # (variables without mapping row act nowhere)
+                    dv = float(max(np.max(np.abs(np.asarray(opj.l, float)[pres] - xk[pres]), initial=0.), np.max(np.abs(np.asarray(opj.u, float)[pres] - xk[pres]), initial=0.)))
+                    worst_dev = max(worst_dev, dv)
+        except Exception as e:
+            case.check('slp.fixed_present_via_fix_time_window_works', False, error='%s: %s' % (type(e).__name__, str(e)[:160])); vals = None
+        if vals is not None:
+            eev2 = float(np.mean(vals))
+            # the present-stage decisions (every variable acting before the boundary, incl. size variables) are those of the fixed solution in every scenario
+            # (judged on the bounds of the re-built problems: solver accuracy plays no role)
+            case.check('slp.fixed_present_is_common_to_all_scenarios', worst_dev <= 1e-9 * (1 + np.abs(xk).max()), nonvacuous=0 < nf < m, worst_bound_deviation=worst_dev,
+                       fixed_to_scenario=kk, boundary=k)
+            case.check('slp.not_below_fixed_present_via_fix_time_window', float(res_slp.value) >= eev2 - tol, nonvacuous=differ and 0 < nf < m, slp=float(res_slp.value),
+                       expected_value_fixed_present=eev2, fixed_to_scenario=kk, boundary=k)
+        else:
+            case.event('fixed_present_infeasible_or_failed')
     if res_rob is not None:
         if isinstance(res_rob, str):
             case.inconc('robust not solved: ' + res_rob)
